@@ -3,6 +3,8 @@ import TsVerif.C17.Lossy
 import TsVerif.C17.MergeLemmas
 import TsVerif.C17.Whole
 import TsVerif.C17.MergeMultiLemmas
+import TsVerif.C17.MergeTerm
+import TsVerif.C17.IntersectLemmas
 /-!
 # C17 — Highlight events are well nested and reproduce the source text exactly
 
@@ -22,8 +24,9 @@ Clause map (models: `TsVerif/C17/Model.lean`, `Merge.lean`; judges: `Judge.lean`
 | "invalid UTF-8 replaced" | `lossyFixed_eq_spec` (∀ bytes), `lossy_eq_spec_partial` (no tail loss), witnesses `lossy_drops_truncated_tail`, `lossy_drops_final_replacement` | proved / witness |
 | normalisation of the WHOLE source | `normalize_whole` (well-formed stream whose chunks do not end inside a character ⇒ decoded chunks = decoded source), `render_roundtrip_whole_fixed` | proved |
 | renderer does not panic on a well-formed stream | `render_total_of_wellFormed` | proved |
-| Source spans contiguous/increasing/covering, Start/End nested and closed | `merge_wellformed_partial` (model of the merge of ONE layer: `highlight_end_stack`, `emit_event`, `next_event`; tied by correspondence); `merge_multi_wellformed_partial` (several layers: `sort_key`, `sort_layers`, `insert_layer`, `last_highlight_range`; no locals branch; under the hypothesis that the model run finishes within its fuel); both models tied by correspondence | proved for the models, judged on every real stream |
-| injected spans inside the content, local reference like definition | judged on every real stream (`judgeInjected`, `judgeLocals`); not modelled | judge only |
+| Source spans contiguous/increasing/covering, Start/End nested and closed | `merge_wellformed_partial` (model of the merge of ONE layer: `highlight_end_stack`, `emit_event`, `next_event`; tied by correspondence); `merge_multi_wellformed` (several layers: `sort_key`, `sort_layers`, `insert_layer`, `last_highlight_range`; no locals branch; the run provably finishes when injections refer to later layers of the table — `refsUp`, checked on every real case), `merge_multi_wellformed_partial` (any layer table, if the run finishes); both models tied by correspondence | proved for the models, judged on every real stream |
+| injected spans inside the content | `intersect_ranges_spec`, `injected_content_inside` (port of `intersect_ranges`: every content range is non-empty, inside a range of the parent layer, inside a content node and — unless include-children — clear of the node's children); that a layer's SPANS start inside its included ranges is a property of parsing with included ranges (C13), judged on every real stream by `judgeInjected` | ranges proved, spans judged |
+| local reference like definition | judged on every real stream (`judgeLocals`); the locals branch is not modelled | judge only |
 
 Boundary conventions: the renderer adds the final newline whenever the last HTML *byte* is not a
 newline, so a text that already ends in a newline still gets one when a tag follows it; `judgeHtml`
@@ -261,6 +264,37 @@ def exLayers : List LayerDef := [
   ⟨0, [⟨0, 6, 1, .hl (some 1)⟩, ⟨1, 4, 2, .inj [1]⟩, ⟨1, 4, 2, .hl (some 2)⟩, ⟨4, 6, 3, .hl none⟩, ⟨4, 6, 3, .hl (some 3)⟩]⟩,
   ⟨1, [⟨1, 4, 9, .hl (some 5)⟩, ⟨2, 3, 10, .hl (some 6)⟩]⟩]
 
+/-- The multi-layer merge TERMINATES and yields a well-formed stream, for every layer table whose
+capture offsets lie inside the source and whose injection captures refer only to layers with a
+larger id (the table is a forest in creation order; the driver checks `refsUp` and `defsIn` on
+every real case).  Termination measure: `sumW (layerW defs)` — 2 per remaining capture (+ the
+weight of the layers an injection capture creates) + 1 per open highlight end; every iteration of
+the loop decreases it (`step_mu`), and `mergeLayers` runs with exactly that much fuel.
+Remaining restriction (of the MODEL, not a hypothesis): configurations without a locals query. -/
+theorem merge_multi_wellformed (defs : List LayerDef) (top : List Nat) (n : Nat)
+    (hd : defsIn n defs = true) (hr : refsUp defs = true) :
+    (mergeLayers defs top n).2 = true ∧ judgeEvents n (mergeLayers defs top n).1 = true := by
+  have hfin : (mergeLayers defs top n).2 = true := by
+    have hdo : DefsOk n defs := by
+      intro d hdm c hc
+      have h1 := List.all_eq_true.mp hd d hdm
+      have h2 := List.all_eq_true.mp h1 c hc
+      simpa using h2
+    have hlay : ∀ (ids : List Nat), ∀ l ∈ ids.filterMap (mkLayer defs), LayerOk n l := by
+      intro ids l hl
+      obtain ⟨id, _, hm⟩ := List.mem_filterMap.mp hl
+      exact (mkLayer_ok hdo hm).2
+    unfold mergeLayers
+    exact runM_fin hdo hr _ _ (sinv_sorted (Nat.zero_le _) (hlay top)) (Nat.lt_succ_self _)
+  exact ⟨hfin, merge_multi_wellformed_partial defs top n hd hfin⟩
+
+example : refsUp exLayers = true ∧ defsIn 7 exLayers = true := by decide
+
+/-- `refsUp` cannot be dropped: a layer whose injection re-creates itself does not finish and leaves
+the stream unclosed. -/
+example : refsUp [⟨0, [⟨0, 1, 7, .inj [0]⟩]⟩] = false ∧
+    (mergeLayers [⟨0, [⟨0, 1, 7, .inj [0]⟩]⟩] [0] 1).2 = false := by decide
+
 example : defsIn 7 exLayers = true ∧ mergeLayers exLayers [0] 7 =
     ([.start 1, .source 0 1, .start 5, .source 1 2, .start 6, .source 2 3, .stop, .source 3 4, .stop,
       .start 3, .source 4 6, .stop, .stop, .source 6 7], true) := by decide
@@ -268,5 +302,55 @@ example : defsIn 7 exLayers = true ∧ mergeLayers exLayers [0] 7 =
 /-- The finishing hypothesis cannot be dropped: a layer whose injection re-creates itself never ends. -/
 example : (mergeLayers [⟨0, [⟨0, 1, 7, .inj [0]⟩]⟩] [0] 1).2 = false ∧
     judgeEvents 1 (mergeLayers [⟨0, [⟨0, 1, 7, .inj [0]⟩]⟩] [0] 1).1 = false := by decide
+
+/-! ## Injection content ranges -/
+
+/-- Every range computed by `intersect_ranges` — for ANY parent ranges, nodes and children (no
+ordering assumption) — is non-empty, lies inside one of the parent layer's ranges, and lies inside
+one gap of one content node (the stretch between two consecutive excluded ranges). -/
+theorem intersect_ranges_spec (parents : List Rg) (nodes : List INode) (incl : Bool) :
+    ∀ r ∈ intersectRanges parents nodes incl,
+      r.1 < r.2 ∧ (∃ p ∈ parents, p.1 ≤ r.1 ∧ r.2 ≤ p.2) ∧
+      (∃ g ∈ allGaps incl nodes, g.1 ≤ r.1 ∧ r.2 ≤ g.2) := by
+  unfold intersectRanges
+  cases parents with
+  | nil => intro r hr; simp at hr
+  | cons p ps =>
+    exact irNodes_ok incl nodes p ps [] (fun g hg => hg) (List.mem_cons_self)
+      (fun x hx => List.mem_cons_of_mem _ hx) (fun r hr => by simp at hr)
+
+/-- `injected_inside` for the content ranges: when every content node has its children in order
+inside it (true of syntax nodes), each content range lies inside the parent layer, inside a content
+node, and — without `include-children` — is disjoint from every child of that node.  So a layer
+created for these ranges is parsed only over text of the injection's content. -/
+theorem injected_content_inside (parents : List Rg) (nodes : List INode) (incl : Bool)
+    (hn : ∀ nd ∈ nodes, chainOk nd.s nd.e nd.children) :
+    ∀ r ∈ intersectRanges parents nodes incl,
+      (∃ p ∈ parents, p.1 ≤ r.1 ∧ r.2 ≤ p.2) ∧
+      ∃ nd ∈ nodes, nd.s ≤ r.1 ∧ r.2 ≤ nd.e ∧
+        (incl = false → ∀ c ∈ nd.children, c.2 ≤ r.1 ∨ r.2 ≤ c.1) := by
+  intro r hr
+  obtain ⟨hne, hp, g, hg, hg1, hg2⟩ := intersect_ranges_spec parents nodes incl r hr
+  refine ⟨hp, ?_⟩
+  obtain ⟨nd, hnd, hgn⟩ := List.mem_flatMap.mp hg
+  refine ⟨nd, hnd, ?_⟩
+  cases incl with
+  | true =>
+    have hch : chainOk nd.s nd.e [] := chainOk_le (hn nd hnd)
+    have := gaps_chain hch g (by simpa [exclOf] using hgn)
+    exact ⟨by omega, by omega, fun h => by simp at h⟩
+  | false =>
+    have := gaps_chain (hn nd hnd) g (by simpa [exclOf] using hgn)
+    refine ⟨by omega, by omega, fun _ c hc => ?_⟩
+    rcases this.2.2 c hc with h | h
+    · exact Or.inl (by omega)
+    · exact Or.inr (by omega)
+
+/-- non-vacuity: two parent ranges, one node with two children, children excluded -/
+example : intersectRanges [(0, 10), (14, 30)] [⟨2, 25, [(4, 6), (16, 18)]⟩] false
+      = [(2, 4), (6, 10), (14, 16), (18, 25)] ∧
+    chainOk 2 25 [(4, 6), (16, 18)] := by
+  refine ⟨by decide, ?_⟩
+  simp [chainOk]
 
 end TsVerif.C17
